@@ -48,6 +48,9 @@ def run(ctx):
     d2(ctx)
     d3(ctx)
     d4(ctx)
+    from .common import settings_wiring
+    settings_wiring(ctx, "D3/T5-settings-wiring", AL)
+    d5_scaling(ctx)
     ctx.trust("np.maximum(a, 0.0) >= 0 elementwise")
     ctx.trust("Fischer-Burmeister: sqrt(a^2+b^2) - a - b = 0  <=>  a >= 0, b >= 0, a*b = 0")
     ctx.assume("alSettings.penalty_scaling >= 1 (admissible settings in the property text)")
@@ -494,6 +497,210 @@ def d4(ctx):
         ctx.undecided(rule, bco, None, construct="preconditioner-active-set", detail="np.where not found")
 
 
+def _sdeg(e, leaf, depth=10):
+    """Degree of `e` in the diagonal scaling s of the bound-constrained front end (xBar = s*x has degree 1); None if inhomogeneous/unknown."""
+    from fractions import Fraction as F
+    if depth <= 0:
+        return None
+    d = leaf(e)
+    if d is not None:
+        return d if d != "unknown" else None
+    if isinstance(e, ast.Constant):
+        return "any" if e.value == 0 and not isinstance(e.value, bool) else F(0)
+    if isinstance(e, ast.UnaryOp):
+        return _sdeg(e.operand, leaf, depth - 1)
+    if isinstance(e, ast.BinOp):
+        a, b = _sdeg(e.left, leaf, depth - 1), _sdeg(e.right, leaf, depth - 1)
+        if a is None or b is None:
+            return None
+        if isinstance(e.op, (ast.Mult, ast.MatMult, ast.Div)):
+            if "any" in (a, b):
+                return "any" if a == "any" else None
+            return a + b if not isinstance(e.op, ast.Div) else a - b
+        if isinstance(e.op, (ast.Add, ast.Sub)):
+            if a == "any":
+                return b
+            if b == "any":
+                return a
+            return a if a == b else None
+        return None
+    if isinstance(e, ast.Subscript):
+        return _sdeg(e.value, leaf, depth - 1)
+    if isinstance(e, ast.Call):
+        last = (dotted(e.func) or "").split(".")[-1]
+        if last in ("sqrt",) and e.args:
+            a = _sdeg(e.args[0], leaf, depth - 1)
+            return None if a is None else a / 2
+        if last in ("maximum", "minimum", "where") and e.args:
+            ds = [_sdeg(a, leaf, depth - 1) for a in e.args[-2:]]
+            nz = [d for a, d in zip(e.args[-2:], ds) if not (isinstance(a, ast.Constant) and a.value == 0)]
+            if any(d is None for d in nz):
+                return None
+            return nz[0] if nz and all(d == nz[0] for d in nz) else (F(0) if not nz else None)
+        if last in ("ones_like",):
+            return F(0)
+        if last in ("array", "asarray", "abs") and e.args:
+            return _sdeg(e.args[0], leaf, depth - 1)
+    return None
+
+
+def d5_scaling(ctx):
+    """Bound-constrained front end: the AL solver works on xBar = s*x (s = diagonal scaling).  Degree typing in s:
+    xBar: 1, x: 0, objective arguments: 0, multipliers of the scaled problem: -1 (grad_xBar = grad_x / s), physical multipliers: 0.
+    The scaling variable is found by role: the factor s in `xBar0 = s * x0` that reaches the x0 slot of the base constructor."""
+    from fractions import Fraction as F
+    rule = "D5/T8-scaling-degrees"
+    init = ctx.need(f"{BCO}:BoundConstrainedObjective.__init__")
+    cfg = cfg_of(init)
+    ps = init.params()           # self, objective_func, x0, p, constrainedIndices, ...
+    selfn, objf, x0 = ps[0], ps[1], ps[2]
+    sup = [c for c in calls_in(init) if isinstance(c.func, ast.Attribute) and c.func.attr == "__init__" and isinstance(c.func.value, ast.Call)
+           and src(c.func.value.func) == "super"]
+    if len(sup) != 1 or len(sup[0].args) < 5:
+        ctx.undecided(rule, init, None, construct="base-constructor-call", detail="super().__init__(objective, constraint, x0, p, lam0, kappa0, ...) not found")
+        return
+    sup = sup[0]
+    node = [n for n in cfg.nodes if n.ast is not None and any(x is sup for x in ast.walk(n.ast))][0]
+    xb = expand(cfg, node, sup.args[2], depth=1)
+    s_name = None
+    if isinstance(xb, ast.BinOp) and isinstance(xb.op, ast.Mult):
+        for a, b in ((xb.left, xb.right), (xb.right, xb.left)):
+            if isinstance(b, ast.Name) and b.id == x0 and isinstance(a, ast.Name):
+                s_name = a.id
+    ctx.decide(rule, s_name is not None, init, sup, construct="initial-iterate=s*x0", detail=f"scaled initial iterate `{src(xb)}`",
+               bad_detail=f"the initial iterate handed to the AL objective is `{src(xb)}`, not (scaling * x0)")
+    if s_name is None:
+        return
+    # locals: degree table built from definitions (all definitions of a name must agree)
+    local_deg = {s_name: F(1), x0: F(0)}
+
+    def leaf_local(e):
+        if isinstance(e, ast.Name):
+            if e.id in local_deg:
+                return local_deg[e.id]
+            return None
+        if isinstance(e, ast.Call):
+            # objective_func / grad(objective_func)(x, p): value or physical gradient of the unscaled objective: degree 0 if its argument is
+            f = e.func
+            inner = f.func if isinstance(f, ast.Call) else None
+            if (isinstance(f, ast.Name) and f.id == objf) or (inner is not None and any(isinstance(a, ast.Name) and a.id == objf for a in f.args)):
+                a0 = _sdeg(e.args[0], leaf_local) if e.args else None
+                return F(0) if a0 == 0 else "unknown"
+        return None
+    changed = True
+    while changed:
+        changed = False
+        for st in ast.walk(init.node):
+            if isinstance(st, ast.Assign) and len(st.targets) == 1 and isinstance(st.targets[0], ast.Name) and st.targets[0].id not in local_deg:
+                if isinstance(st.value, ast.Call) and (dotted(st.value.func) or "").split(".")[-1] == "ones_like":
+                    continue
+                d = _sdeg(st.value, leaf_local)
+                if d is not None:
+                    local_deg[st.targets[0].id] = d
+                    changed = True
+    # inverse scaling is 1/s wherever defined
+    inv = [st for st in ast.walk(init.node) if isinstance(st, ast.Assign) and isinstance(st.targets[0], ast.Name)
+           and isinstance(st.value, ast.BinOp) and isinstance(st.value.op, ast.Div) and isinstance(st.value.right, ast.Name) and st.value.right.id == s_name]
+    # multipliers handed to the base class
+    lam_d = _sdeg(expand(cfg, node, sup.args[4], depth=1), leaf_local)
+    ctx.decide(rule, lam_d == -1, init, sup, construct="initial-multipliers-degree", detail="lam0 = (grad f(x0) / s)[constrained]: degree -1",
+               bad_detail=f"initial multipliers `{src(expand(cfg, node, sup.args[4], depth=1))}` have scaling degree {lam_d}; the multipliers of the scaled problem are grad f / s (degree -1)")
+    # scaled objective: objective_func receives a degree-0 argument when xBar has degree 1
+    for c in init.children:
+        if c.kind != "function":
+            continue
+        cps = c.params()
+        calls = [k for k in calls_in(c) if isinstance(k.func, ast.Name) and k.func.id == objf]
+        if not calls:
+            continue
+        ccfg = cfg_of(c)
+        for k in calls:
+            nd = [n for n in ccfg.nodes if n.ast is not None and any(x is k for x in ast.walk(n.ast))][0]
+            arg = expand(ccfg, nd, k.args[0])
+            dd = _sdeg(arg, lambda e: (F(1) if isinstance(e, ast.Name) and e.id == cps[0] else local_deg.get(e.id) if isinstance(e, ast.Name) else None))
+            ctx.decide(rule, dd == 0, c, k, construct=f"{c.name}:objective-sees-unscaled-argument", detail=f"objective evaluated at `{src(arg)}` (degree 0)",
+                       bad_detail=f"{c.name} evaluates the user objective at `{src(arg)}` which has scaling degree {dd}: the objective must see x = xBar / s")
+    # attributes
+    attr_deg = {}
+    for st in ast.walk(init.node):
+        if isinstance(st, ast.Assign) and isinstance(st.targets[0], ast.Attribute) and isinstance(st.targets[0].value, ast.Name) and st.targets[0].value.id == selfn:
+            d = _sdeg(st.value, leaf_local)
+            if d is not None:
+                attr_deg[st.targets[0].attr] = d
+    attr_deg["lam"] = F(-1)
+    cls = init.parent
+    n_m = 0
+    for m in cls.children:
+        if m.kind != "function" or m is init or not m.name.startswith("get_"):
+            continue
+        mps = m.params()
+        xs = mps[1] if len(mps) > 1 else None
+
+        def leaf_m(e, mps=mps, xs=xs):
+            if isinstance(e, ast.Attribute) and isinstance(e.value, ast.Name) and e.value.id == mps[0]:
+                return attr_deg.get(e.attr, F(0) if e.attr in ("constrainedIndices",) else "unknown")
+            if isinstance(e, ast.Name) and e.id == xs:
+                return F(0)
+            if isinstance(e, ast.Call) and isinstance(e.func, ast.Attribute) and isinstance(e.func.value, ast.Name) and e.func.value.id == mps[0]:
+                # inherited evaluators take the scaled iterate
+                a0 = _sdeg(e.args[0], leaf_m) if e.args else None
+                return F(0) if a0 == 1 else "unknown"
+            return None
+        for r in m.returns():
+            n_m += 1
+            d = _sdeg(r, leaf_m)
+            ctx.decide(rule, d == 0, m, r, construct=f"{m.name}:physical-quantity", detail=f"`{src(r)}` has scaling degree 0",
+                       bad_detail=f"{m.name} returns `{src(r)}` whose scaling degree is {d}: values handed back to the caller must be in the "
+                                  f"caller's unscaled variables (multipliers of the scaled problem are grad f / s, iterates are s * x)")
+    if n_m < 4:
+        raise Incomplete(f"{n_m} accessor methods of BoundConstrainedObjective typed (4 expected)")
+    # front end
+    bcs = ctx.need(f"{BCS}:bound_constrained_solve")
+    bps = bcs.params()
+    bcfg = cfg_of(bcs)
+
+    name_deg = {}
+
+    def leaf_b(e):
+        if isinstance(e, ast.Attribute) and isinstance(e.value, ast.Name) and e.value.id == bps[0]:
+            return attr_deg.get(e.attr, "unknown")
+        if isinstance(e, ast.Name):
+            if e.id == bps[1]:
+                return F(0)
+            if e.id in name_deg:
+                return name_deg[e.id]
+            return None
+        if isinstance(e, ast.Call) and (dotted(e.func) or "").endswith("augmented_lagrange_solve"):
+            a = _sdeg(e.args[1], leaf_b) if len(e.args) > 1 else None
+            return F(1) if a == 1 else "unknown"
+        if isinstance(e, ast.Call) and (dotted(e.func) or "").endswith("warm_start_increment"):
+            a = _sdeg(e.args[1], leaf_b) if len(e.args) > 1 else None
+            return F(1) if a == 1 else "unknown"
+        return None
+    # flow-insensitive: every definition of a local must have the same degree (a literal 0 fits any)
+    for _ in range(4):
+        for st in ast.walk(bcs.node):
+            tgt = val = None
+            if isinstance(st, ast.Assign) and len(st.targets) == 1 and isinstance(st.targets[0], ast.Name):
+                tgt, val = st.targets[0].id, st.value
+            elif isinstance(st, ast.AugAssign) and isinstance(st.target, ast.Name) and isinstance(st.op, (ast.Add, ast.Sub)):
+                tgt, val = st.target.id, st.value
+            if tgt is None:
+                continue
+            d = _sdeg(val, leaf_b)
+            if d is None or d == "any":
+                continue
+            if tgt in name_deg and name_deg[tgt] != d:
+                name_deg[tgt] = "unknown"
+            elif tgt not in name_deg:
+                name_deg[tgt] = d
+    for r in bcs.returns():
+        ex = r
+        d = _sdeg(ex, leaf_b)
+        ctx.decide(rule, d == 0, bcs, r, construct="front-end:returns-unscaled-point", detail=f"`{src(ex)[:90]}` has degree 0",
+                   bad_detail=f"bound_constrained_solve returns `{src(ex)[:120]}` with scaling degree {d}: the AL solve works on s*x and the result must be divided by s")
+
+
 def variants(repo):
     from optilint.selftest import Variant, sub, sub_in_func, alpha_rename, reformat
     A = "optimism/AlSolver.py"
@@ -501,6 +708,12 @@ def variants(repo):
     B = "optimism/BoundConstrainedSolver.py"
     D = "augmented_lagrange_solve"
     return [
+        Variant("multipliers unscaled with the inverse", "optimism/BoundConstrainedObjective.py", sub("        return self.lam * self.scaling[self.constrainedIndices]", "        return self.lam * self.invScaling[self.constrainedIndices]"), "D5/T8-scaling-degrees"),
+        Variant("objective evaluated at scaled point", "optimism/BoundConstrainedObjective.py", sub("            x = invScaling * xBar\n", "            x = scaling * xBar\n"), "D5/T8-scaling-degrees"),
+        Variant("front end returns the scaled point", "optimism/BoundConstrainedSolver.py", sub("    return boundConstrainedObjective.invScaling * xBar", "    return boundConstrainedObjective.scaling * xBar"), "D5/T8-scaling-degrees"),
+        Variant("accessor passes unscaled point", "optimism/BoundConstrainedObjective.py", sub("        return self.gradient(self.scaling * x)", "        return self.gradient(x)"), "D5/T8-scaling-degrees"),
+        Variant("settings fields swapped", "optimism/AlSolver.py", sub("    return Settings(penalty_scaling,\n                    target_constraint_decrease_factor,", "    return Settings(target_constraint_decrease_factor,\n                    penalty_scaling,"), "D3/T5-settings-wiring"),
+        Variant("alpha-rename bound constrained solve", "optimism/BoundConstrainedSolver.py", alpha_rename("bound_constrained_solve"), None),
         Variant("return on force residual", A, sub_in_func(D, "            if errorNorm < alSettings.tol:", "            if forceErrorNorm < alSettings.tol:"), "D1/T1-terminate-on-full-residual"),
         Variant("sub-problem tolerance", A, sub_in_func(D, "            if errorNorm < alSettings.tol:", "            if errorNorm < settings.tol:"), "D1/T1-terminate-on-full-residual"),
         Variant("residual drops NCP block", C, sub("            return np.hstack( (grad_x(x,p,l,k),\n                               ncp_func(x,p,l) ) )", "            return np.hstack( (grad_x(x,p,l,k),\n                               0.0*ncp_func(x,p,l) ) )"), "D1/T5-residual-chain"),
